@@ -35,9 +35,12 @@ def gen_trace(seed, world, tier):
     R_ = sub_rng(seed, "C12")
     hi = 8 if tier == "quick" else 10
     m, n = R_.randint(1, hi), R_.randint(1, hi)
+    midsize = R_.random() < 0.03
+    if midsize:     # mid-size matrices, where the default oversampling (10) is not wider than the matrix
+        m, n = R_.randint(14, 28), R_.randint(14, 28)
     k = min(m, n)
     fam = R_.choice(SPECTRA)
-    Rk = R_.randint(1, k)
+    Rk = R_.randint(1, k) if not midsize else R_.randint(1, 4)
     base = sorted((round_sig(R_.uniform(0.5, 3.0), 4) for _ in range(k)), reverse=True)
     rank = k
     if fam == "clustered" and k >= 2:
